@@ -84,6 +84,7 @@ def loop(*a, **k): pass
 def ghost(*a, **k): pass
 def uses(*a, **k): pass
 def may_raise(*a, **k): pass
+def checked_natively(*a, **k): pass
 
 
 def cut(x):
@@ -173,3 +174,8 @@ def lstsq_solution(A, b):
     A = np.asarray(A, dtype=float)
     b = np.asarray(b, dtype=float)
     return np.linalg.solve(A.T @ A, A.T @ b)
+
+
+def key_position(d, k):
+    """Native meaning: the index of key k in the iteration order of d."""
+    return list(d).index(k)
